@@ -66,8 +66,12 @@ func c17Versions(r *RNG) []c17Version {
 			}
 			v.funcs[name] = tag
 			v.order = append(v.order, name)
-			if r.Bool() {
+			if form := r.Intn(4); form == 0 {
 				fmt.Fprintf(&sb, "func %s() string {\n\treturn %q\n}\n\n", name, tag)
+			} else if form == 1 { // a type declared in the body ...
+				fmt.Fprintf(&sb, "func %s() string {\n\ttype st struct {\n\t\tv string\n\t}\n\tq := &st{v: %q}\n\treturn q.v\n}\n\n", name, tag)
+			} else if form == 2 { // ... whose name is a plain local in another version of the same function
+				fmt.Fprintf(&sb, "func %s() string {\n\tst := %q\n\treturn st\n}\n\n", name, tag)
 			} else { // a body with locals and control flow, so that code really differs
 				// the local may be named like a package-level variable (which exists in the table from the second load on)
 				lv := Pick(r, []string{"s", "Name", "Mode"})
